@@ -189,7 +189,7 @@ def _run_sub_shard(check: Check, sub: SubCheck, tier: str, seed: int, shard: int
 
     if best["case"] is not None:
         pass
-    elif sub.enumerate_cases is not None:
+    elif sub.enumerate_cases is not None and (tier == "thorough" or sub.strategy is None):
         for case in sub.enumerate_cases(tier, shard, nshards):
             unknown = evaluate(case)
             if unknown:
